@@ -391,24 +391,24 @@ type c07H struct {
 	rng    *rand.Rand
 	seq    uint32
 
-	pending []*c07Case
-	lcf     *os.File
-	lcLen   int
+	pending        []*c07Case
+	lcf            *os.File
+	lcLen          int
 	shareWaitEvery int
 }
 
 type c07Case struct {
-	n      uint32
-	v      c07Vec
-	secret []byte
-	msg    []byte
-	regAddr []byte
-	pin4, pin6 net.IP
+	n            uint32
+	v            c07Vec
+	secret       []byte
+	msg          []byte
+	regAddr      []byte
+	pin4, pin6   net.IP
 	portOverride int // -1 none
-	transport pb.TransportType
-	ref    c07Ref
-	obs    c07Obs
-	mon    string
+	transport    pb.TransportType
+	ref          c07Ref
+	obs          c07Obs
+	mon          string
 }
 
 // lastCase is rec.Case without the open/truncate/close per case (0.7 ms each on this filesystem): the same
@@ -1228,14 +1228,10 @@ func c07WaitQuiet(bound time.Duration, subs ...string) string {
 }
 
 // flush judges the share observable of all pending cases after quiescence.
-var c07TimeFlush, c07TimeIngest, c07TimeCase time.Duration
-
 func (h *c07H) flush() {
 	if len(h.pending) == 0 {
 		return
 	}
-	t0 := time.Now()
-	defer func() { c07TimeFlush += time.Since(t0) }()
 	// cheap pre-wait: when the last case may share, give the request ~2 ms to arrive before the (stop-the-world) scans start
 	if last := h.pending[len(h.pending)-1]; last.ref.srcDetector && last.ref.sharing && last.secret != nil && (last.obs.fam[0].isVisible() || last.obs.fam[1].isVisible()) {
 		for t := time.Now(); time.Since(t) < 2*time.Millisecond && !h.peer.has(last.secret); {
@@ -1265,9 +1261,7 @@ func (h *c07H) flush() {
 func (h *c07H) runTable(v c07Vec) {
 	c := h.build(v)
 	c.mon = "table"
-	tc := time.Now()
 	h.lastCase(fmt.Sprintf("#%d %s", c.n, v.String()))
-	c07TimeCase += time.Since(tc)
 	rm := h.station(v.staIndex())
 	h.logbuf.Take()
 	h.fr.Reset()
@@ -1314,9 +1308,7 @@ func (h *c07H) runTable(v c07Vec) {
 				o.port = reg.PhantomPort
 			}
 			seen[f] = true
-			t0 := time.Now()
 			rm.ingestRegistration(reg)
-			c07TimeIngest += time.Since(t0)
 			calls := h.live.take()
 			o.probes = append(o.probes, calls...)
 			for len(o.probesBy) <= d {
@@ -1489,16 +1481,10 @@ func TestVerifC07Table(t *testing.T) {
 		for key, v := range h.peer.got {
 			if key != "" {
 				k += int64(len(v))
-				if os.Getenv("C07_DEBUG") != "" {
-					fmt.Printf("UNATTRIBUTED %s n=%d %v\n", key, len(v), v[0].W)
-				}
 			}
 		}
 		return k
 	}()))
-	if os.Getenv("C07_DEBUG") != "" {
-		fmt.Printf("TIMES flush=%v ingest=%v case=%v\n", c07TimeFlush, c07TimeIngest, c07TimeCase)
-	}
 	h.rec.Note("not judged (the statement is silent; outcomes are counted under not_judged_outcome[...]): messages without a shared secret, without a source, with a registrant address that is not 4 or 16 bytes (IPv6 registration), with an IPv6 override that is not 16 bytes, and the IPv6 half of a generation whose subnets are all IPv4")
 }
 
